@@ -42,7 +42,7 @@ type gen struct {
 	jitter bool
 }
 
-func (g *gen) chance(pct int) bool { return g.IntN(100) < pct }
+func (g *gen) chance(pct int) bool  { return g.IntN(100) < pct }
 func pick[T any](g *gen, xs ...T) T { return xs[g.IntN(len(xs))] }
 
 // wpick draws an index according to integer weights.
@@ -74,66 +74,66 @@ func (g *gen) dur(secs int64) int64 {
 
 // bias: the knobs a profile turns.
 type bias struct {
-	clients    [2]int
-	ops        [2]int
-	resources  [2]int
-	plans      [2]int
-	backends   []string
-	loggers    []string
-	faultFree  bool
-	sched      []string
-	stallPct   int
-	lifetimes  []int64 // seconds
-	freshKinds []int   // weights: max-age, expires, heuristic, none
-	pAgeHdr    int
-	pDateOdd   int
-	pHuge      int
-	pSWR       int
-	pSIE       int
-	pMustReval int
-	pNoCache   int
-	pNoCacheQ  int
-	pNoStore   int
-	pImmutable int
-	pVary      int
-	pVaryStar  int
-	pVaryFlip  int // chance that plans of one resource differ in Vary
-	statuses   []int
-	pErrStatus int
-	pNetFault  int
-	pLatency   int
-	pBigBody   int
-	pFraming   int
-	pHop       int
-	pChange    int
-	pNo304     int
-	pValidator int
-	pReqCC     int
-	reqCCs     []string
-	pUnsafe    int
-	pOtherMeth int
-	pRange     int
-	pCond      int
-	pCancel    int
-	pPoison    int
-	pPartial   int
-	pRespell   int
-	pSelHdr    int
-	pRestart   int
+	clients     [2]int
+	ops         [2]int
+	resources   [2]int
+	plans       [2]int
+	backends    []string
+	loggers     []string
+	faultFree   bool
+	sched       []string
+	stallPct    int
+	lifetimes   []int64 // seconds
+	freshKinds  []int   // weights: max-age, expires, heuristic, none
+	pAgeHdr     int
+	pDateOdd    int
+	pHuge       int
+	pSWR        int
+	pSIE        int
+	pMustReval  int
+	pNoCache    int
+	pNoCacheQ   int
+	pNoStore    int
+	pImmutable  int
+	pVary       int
+	pVaryStar   int
+	pVaryFlip   int // chance that plans of one resource differ in Vary
+	statuses    []int
+	pErrStatus  int
+	pNetFault   int
+	pLatency    int
+	pBigBody    int
+	pFraming    int
+	pHop        int
+	pChange     int
+	pNo304      int
+	pValidator  int
+	pReqCC      int
+	reqCCs      []string
+	pUnsafe     int
+	pOtherMeth  int
+	pRange      int
+	pCond       int
+	pCancel     int
+	pPoison     int
+	pPartial    int
+	pRespell    int
+	pSelHdr     int
+	pRestart    int
 	storeFaults int // max number of store faults
 	diskFaults  int
-	thinkFocus int // percent of think times drawn from boundary set
-	pStoreLat  int
+	thinkFocus  int // percent of think times drawn from boundary set
+	pStoreLat   int
 	swrTimeouts []int64 // ns; -1 = unset
-	maxBody    int
-	pLoc       int
-	pair       bool
-	crashy     bool
-	pCorrupt   int
-	pLongURL   int
-	pMultiLine int
+	maxBody     int
+	pLoc        int
+	pair        bool
+	crashy      bool
+	pCorrupt    int
+	pLongURL    int
+	pMultiLine  int
 	pMultiField int
-	thinks     []int64
+	thinks      []int64
 }
 
 func defaultBias() bias {
@@ -322,6 +322,10 @@ func (g *gen) resource(b *bias, i, n int) Resource {
 	r := Resource{Host: host, Path: fmt.Sprintf("/r%d/p%%2Fq~z", i)}
 	if g.chance(40) {
 		r.Query = "k=v%2Fw~" + strconv.Itoa(i)
+	}
+	if g.chance(10) {
+		// queries that net/url accepts although they are not well-formed percent-encoding
+		r.Query = pick(g, "d=50%", "q=%zz", "q=%4", "rate=5%&x=1", "m=100%25%", "%", "a=%%41")
 	}
 	if g.chance(8) {
 		r.Path, r.Query = "/", fmt.Sprintf("r%d=1", i)
@@ -532,6 +536,16 @@ func (g *gen) base(profile string, seed uint64, b *bias) *Scenario {
 		no := b.ops[0] + g.IntN(b.ops[1]-b.ops[0]+1)
 		for k := 0; k < no; k++ {
 			cl.Ops = append(cl.Ops, g.op(b, scn))
+			if o := &cl.Ops[k]; k > 0 && o.Admin == "" && g.chance(12) {
+				// a polling loop: the very request value of an earlier operation is sent again
+				for j := k - 1; j >= 0; j-- {
+					if p := cl.Ops[j]; p.Admin == "" && p.Cond == "" && p.CancelNs == 0 && !p.Poison {
+						o.Method, o.Res, o.Spelling, o.CC, o.Hdr, o.Range = p.Method, p.Res, p.Spelling, p.CC, p.Hdr, p.Range
+						o.Cond, o.CancelNs, o.Poison, o.Reuse = "", 0, false, true
+						break
+					}
+				}
+			}
 		}
 		scn.Clients = append(scn.Clients, cl)
 	}
